@@ -2,7 +2,7 @@ from harness import tlc
 import os,sys
 front=sys.argv[1]; ent=int(sys.argv[2]); maxt=int(sys.argv[3]); T=sys.argv[4]; V=sys.argv[5]
 cfg=os.path.join(tlc.BUILD,'pit_t.cfg')
-tlc.write_cfg(cfg, constants={'Front':'"%s"'%front,'MaxEntries':ent,'MaxT':maxt,'Templates':'<- T_'+T,'DataSet':'<- D_'+T,'Verdicts':'<- V_'+V,'Reasons':'<- R_one','Envs':'<- E_one','Junk':'<- J_one','Defer':'<- '+os.environ.get('DEFER','Def_no'),'Dev':'<- NoDev'},
+tlc.write_cfg(cfg, constants={'Front':'"%s"'%front,'MaxEntries':ent,'MaxT':maxt,'Templates':'<- T_'+T,'DataSet':'<- D_'+T,'Verdicts':'<- V_'+V,'Reasons':'<- R_one','Envs':'<- E_one','Junk':'<- J_one','Races':'<- '+os.environ.get('RACES','Race_no'),'Defer':'<- '+os.environ.get('DEFER','Def_no'),'Dev':'<- NoDev'},
   invariants=['TypeOK','NoResidue','RightOutcome'], properties=['OnceOnly','NoUnvalidatedData','BufferedValidated','BufferedIsDelivered','AllAndOnlyMatching','JunkInert']+(['Finishes'] if len(sys.argv)>6 else []))
 r=tlc.run('NdnPitMC',cfg,workers=8,coverage=True)
 print(r, r.coverage)
